@@ -24,6 +24,7 @@ import (
 	"strconv"
 	"strings"
 	"sync"
+	"sync/atomic"
 	"syscall"
 	"time"
 
@@ -219,12 +220,21 @@ func cmdWorker(a []string) {
 	curStart := time.Now()
 	// wall-clock hang guard: a run that normally takes milliseconds
 	go func() {
+		lastTick, lastChange := int64(-1), time.Now()
 		for {
 			time.Sleep(2 * time.Second)
 			mu.Lock()
 			c, st := cur, curStart
 			mu.Unlock()
-			if c >= 0 && time.Since(st) > hangLimit() {
+			if t := atomic.LoadInt64(&props.ProgressTick); t != lastTick {
+				lastTick, lastChange = t, time.Now()
+			}
+			if st.After(lastChange) {
+				lastChange = st
+			}
+			// no (sub-)run has completed for hangLimit: that is a hang, however
+			// long the run index as a whole (a sweep) legitimately takes
+			if c >= 0 && time.Since(lastChange) > hangLimit() {
 				fmt.Fprintf(os.Stderr, "HANG idx=%d\n", c)
 				os.Exit(3)
 			}
@@ -269,11 +279,9 @@ func hangLimit() time.Duration {
 			return time.Duration(v) * time.Second
 		}
 	}
-	switch hangProp {
-	case "C03", "C04", "C07", "C14", "C15", "C18":
-		return 300 * time.Second
-	}
-	return 60 * time.Second
+	// measured between completions of (sub-)runs, each of which takes
+	// milliseconds (seconds for the largest inputs under full load)
+	return 90 * time.Second
 }
 
 var hangProp string
@@ -340,13 +348,21 @@ func cmdReplay(path string) int {
 		// the worker's watchdog applies: run under a timer
 		done := make(chan *props.Outcome, 1)
 		go func() { done <- safeExec(p, tr, false) }()
-		select {
-		case <-done:
-			fmt.Printf("replay: run finished, hang not reproduced\n")
-			return exitOK
-		case <-time.After(hangLimit()):
-			fmt.Printf("VIOLATION property=%s replay=%s\n  oracle=%s still running after %v\n", tr.Property, path, tr.Oracle, hangLimit())
-			return exitViolation
+		lastTick, lastChange := int64(-1), time.Now()
+		for {
+			select {
+			case <-done:
+				fmt.Printf("replay: run finished, hang not reproduced\n")
+				return exitOK
+			case <-time.After(2 * time.Second):
+			}
+			if t := atomic.LoadInt64(&props.ProgressTick); t != lastTick {
+				lastTick, lastChange = t, time.Now()
+			}
+			if time.Since(lastChange) > hangLimit() {
+				fmt.Printf("VIOLATION property=%s replay=%s\n  oracle=%s no (sub-)run completed for %v\n", tr.Property, path, tr.Oracle, hangLimit())
+				return exitViolation
+			}
 		}
 	}
 	if pl := tr.Prelude; pl != nil {
